@@ -15,13 +15,16 @@ class IndentationFeatures(object):
     @property
     def is_fitted(self):
         if self.is_valid:
-            return self.dataset.fit_properties["success"]
+            return self.dataset.fit_properties.get("success", False)
         else:
             return False
 
     @property
     def is_valid(self):
-        return bool(self.dataset.fit_properties)
+        # The fit properties may hold preprocessing information only
+        # (no fit yet); the features need to know the fitted axes.
+        fp = self.dataset.fit_properties
+        return bool(fp) and "x_axis" in fp and "y_axis" in fp
 
     @property
     def has_contact_point(self):
